@@ -272,6 +272,47 @@ def fold_identity_completion(m: Model, lgs, lg):
                 'respects': 'a predicate extension does not respect identity: missing ', 'raises': ''}
         for kind in sorted(probs):
             results.append((False, label, kind, TEXT[kind] + ', '.join(sorted(probs[kind])) + ' (union over the iteration orders of the set of constants)'))
+    # identity is interpreted per world: facts at one world must not move extensions at another (modal logics)
+    if lg.modal:
+        for label, idw, fw in (('a=b at w0; Fa true, Fb false at w1', 0, 1), ('a=b at w1; Fa true, Fb false at w0', 1, 0)):
+            probs = set()
+            for order in itertools.permutations((a, b, c)):
+                mdl = ModelC()
+
+                def mkframe():
+                    return Obj('frame', atomics={}, opaques={}, predicates=defaultdict(PI))
+                fr = defaultdict(mkframe)
+                fr[0], fr[1]
+                fr[idw].predicates[Identity][(a, b)] = 'T'
+                fr[fw].predicates[F][(a,)] = 'T'
+                fr[fw].predicates[F][(b,)] = 'F'
+                mdl.frames = fr
+                R = AccessC(set)
+                R[0].add(1)
+                R[1]
+                mdl.R = R
+                mdl.Meta = Obj('Meta', modal=True, unassigned_value='F', quantified=lg.quantified)
+                mdl.values = Obj('values')
+                mdl.constants = ConstSet(order)
+                mdl.sentences = set()
+                mdl._finished = False
+                mdl._is_frame_complete = False
+                try:
+                    mdl.finish()
+                except Raised as e:
+                    probs.add(f'finish() raises {e.text}')
+                    continue
+                except (TypeError, KeyError, AttributeError, IndexError, ValueError, RuntimeError) as e:
+                    probs.add(f'finish() raises {type(e).__name__}: {e}')
+                    continue
+                if mdl.frames[fw].predicates[F].get((b,)) != 'F':
+                    probs.add(f'Fb at w{fw} became {mdl.frames[fw].predicates[F].get((b,))!r}')
+                if mdl.frames[fw].predicates[Identity].get((a, b)) == 'T':
+                    probs.add(f'a=b became true at w{fw}')
+            if probs:
+                results.append((False, label, 'locality', 'identity facts of one world act on another world: ' + '; '.join(sorted(probs))))
+            else:
+                results.append((True, label, 'ok', 'identity acts at its own world only'))
     out = (results, sorted(consulted))
     _cache[key] = out
     return out
